@@ -74,6 +74,13 @@ def run_engine_check(ctx, pid, profiles, monitors, n_quick, n_thorough, known_ok
         ctx.gen()
     run = ec.Runner(ctx)
     broken = coq_part(ctx, pid, extra_targets)
+    tie = ec.sweeper_tie(vlib.REPO)
+    ctx.obligation("source text of the sweeper driver loops (checkTimeOut / checkExpried) is the transcribed one", not tie,
+                   "; ".join("%s: %s" % t for t in tie)[:600])
+    if tie:
+        ctx.violation("tie:sweeper-driver-loop:" + "+".join(t[0] for t in tie),
+                      "the per-second driver loop of %s in server/db.go is no longer the loop the harness and the model replay (sweepT/sweepE, ASweepT/ASweepE): timing theorems are no longer tied to the code" % ", ".join(t[0] for t in tie),
+                      {"broken": "source-text tie of the sweeper driver loops", "found": tie}, found_input=False)
     # ------------------------------------------------------------------ cases: corpus first
     cases, origin = [], {}
     cid = 0
